@@ -236,21 +236,25 @@ def _is_obj(a):
     return isinstance(a, np.ndarray) and a.dtype == object or isinstance(a, Alg)
 
 
+def _unwrap(x):
+    return x[()] if isinstance(x, np.ndarray) and x.ndim == 0 else x
+
+
 def _det_obj(m):
     """Leibniz / Laplace determinant on the last two axes of an object array"""
     n = m.shape[-1]
     if n == 0:
         return 1
     if n == 1:
-        return m[..., 0, 0]
+        return _unwrap(m[..., 0, 0])
     if n == 2:
-        return m[..., 0, 0] * m[..., 1, 1] - m[..., 0, 1] * m[..., 1, 0]
+        return _unwrap(m[..., 0, 0] * m[..., 1, 1] - m[..., 0, 1] * m[..., 1, 0])
     tot = 0
     for j in range(n):
         minor = np.delete(np.delete(m, 0, axis=-2), j, axis=-1)
         term = m[..., 0, j] * _det_obj(minor)
         tot = tot + term if j % 2 == 0 else tot - term
-    return tot
+    return _unwrap(tot)
 
 
 def stub_det(a, *args, **kw):
@@ -287,6 +291,30 @@ def stub_norm(x, ord=None, axis=None, keepdims=False):
     sq = np.vectorize(lambda e: (e * e.conjugate()) if isinstance(e, Alg) else e * e, otypes=[object])(x)
     s = np.sum(sq, axis=axis, keepdims=keepdims)
     return np.sqrt(np.asarray(s, dtype=object)) if isinstance(s, np.ndarray) else s.sqrt() if isinstance(s, Alg) else math.sqrt(s)
+
+
+def _all_const(a):
+    return all((not isinstance(e, Alg)) or e.is_const() for e in np.asarray(a, dtype=object).ravel())
+
+
+def _to_float_array(a):
+    a = np.asarray(a, dtype=object)
+    return np.array([float(e.const_value()) if isinstance(e, Alg) else e for e in a.ravel()], dtype=float).reshape(a.shape)
+
+
+def make_eigh_stub(ctx):
+    def eigh(a, *args, **kw):
+        if not _is_obj(a):
+            return _ORIG['eigh'](a, *args, **kw)
+        if not _all_const(a):
+            raise Undecided("eigh stub: symbolic matrices are not under contract (only constant forms)")
+        ev, U = _ORIG['eigh'](_to_float_array(a), *args, **kw)
+        # exact only if the decomposition is representable: check U^T U = 1 and U diag(ev) U^T = a in floats to 1e-14
+        if np.max(np.abs(U @ np.diag(ev) @ U.T - _to_float_array(a))) > 1e-14 or np.max(np.abs(U.T @ U - np.eye(len(ev)))) > 1e-14:
+            raise Undecided("eigh stub: constant form without an exactly representable eigen-decomposition")
+        ctx.stub_uses.append("numpy.linalg.eigh (constant matrix, evaluated concretely)")
+        return lift(ctx.world, ev), lift(ctx.world, U)
+    return eigh
 
 
 def make_kernel_stub(ctx):
@@ -326,6 +354,11 @@ def make_kernel_stub(ctx):
             c = Cond(detPhi if isinstance(detPhi, Alg) else w.const(detPhi), '!=')
             w.assume(c, 'kernel stub: columns independent')
             ctx.stub_uses.append("numerical.svd_kernel (solved form, free basis)")
+            form = getattr(ctx, 'kernel_gs_form', None)
+            if form is not None:
+                # ASSUMED contract on the external: the basis returned by the SVD is in general position with respect
+                # to the form (Gram-Schmidt on it never meets a null vector).  Listed in the evidence.
+                ctx.stub_uses.append("ASSUMED: SVD kernel basis in general position w.r.t. the form (leading Gram minors != 0)")
             APinv = stub_inv(AP) if k > 0 else None
             top = -(APinv @ A[:, F] @ Phi)
             K = np.empty((n, n - k), dtype=object)
@@ -334,18 +367,25 @@ def make_kernel_stub(ctx):
             for r, j in enumerate(F):
                 K[j, :] = Phi[r, :]
             out[b] = K
+            if form is not None:
+                G = K.T @ np.asarray(form, dtype=object) @ K
+                for j in range(1, n - k + 1):
+                    g = _det_obj(G[:j, :j])
+                    if isinstance(g, Alg) and not g.is_const():
+                        w.assume(Cond(g, '!='), 'ASSUMED: SVD kernel basis in general position w.r.t. the form')
         return out
     return svd_kernel
 
 
 def _choose_pivots(Ash, k):
+    """first (lexicographically smallest) column set whose minor is not tiny relative to the best one"""
     n = Ash.shape[1]
-    best, bestv = None, -1.0
-    for P in itertools.combinations(range(n), k):
-        d = abs(np.linalg.det(Ash[:, P])) if k else 1.0
-        if d > bestv * 4:       # prefer earlier (lexicographically smaller) sets unless clearly worse
-            best, bestv = list(P), d
-    return best
+    dets = [(abs(np.linalg.det(Ash[:, P])) if k else 1.0, P) for P in itertools.combinations(range(n), k)]
+    best = max(d for d, _ in dets)
+    for d, P in dets:
+        if d >= 1e-3 * best and d > 0:
+            return list(P)
+    return list(dets[0][1])
 
 
 def stub_c_to_r(cx_array):
@@ -391,9 +431,36 @@ def stubs(ctx):
         saved.append((obj, name, old))
         setattr(obj, name, new)
 
+    def iscomplexobj(x):
+        # dtype emulation: an object array of symbolic scalars counts as complex iff complex inputs were declared
+        if _is_obj(x):
+            return any(k == 'I' for k in ctx.world.kind)
+        return _ORIG['iscomplexobj'](x)
+    patch(np, 'iscomplexobj', iscomplexobj, 'iscomplexobj')
+
+    # dtype emulation: float64 arrays created inside /repo while symbols are in flight become object arrays of
+    # exact rationals (machine arithmetic is treated as real arithmetic), so that symbolic entries can be stored
+    import sys as _sys
+
+    def _from_repo():
+        f = _sys._getframe(2)
+        return f.f_globals.get('__name__', '').startswith('geometry_tools')
+
+    def mk(name):
+        orig = getattr(np, name)
+        _ORIG.setdefault(name, orig)
+
+        def wrapped(*a, **k):
+            if _from_repo() and k.get('dtype', None) is None and not (name in ('zeros', 'ones') and len(a) > 1):
+                return orig(*a, **k).astype(object)
+            return orig(*a, **k)
+        return wrapped
+    for nm in ('identity', 'zeros', 'ones', 'eye'):
+        patch(np, nm, mk(nm), nm)
     patch(np.linalg, 'inv', stub_inv, 'inv')
     patch(np.linalg, 'det', stub_det, 'det')
     patch(np.linalg, 'norm', stub_norm, 'norm')
+    patch(np.linalg, 'eigh', make_eigh_stub(ctx), 'eigh')
     patch(gun, 'svd_kernel', make_kernel_stub(ctx), 'svd_kernel')
     for mod in (gu, guc):
         patch(mod, 'c_to_r', stub_c_to_r, 'c_to_r')
@@ -540,8 +607,9 @@ def prove(contract, inst, name, seed=0, max_paths=8, timeout=10.0, allow_concret
     return res
 
 
-DEFAULT_CONCRETISE = ("utils/core.py", "projective.py", "hyperbolic.py", "lie/core.py", "coxeter.py",
-                      "complex_projective.py")
+# float() concretisations are only tolerated at these sites (function names inside /repo), where the value is
+# used for a sign / zero test that the engine records as a path condition
+DEFAULT_CONCRETISE = (":normalize", ":affine_coords", ":diagonalize_form", ":bilinear_form")
 
 
 def _path_sig(w):
